@@ -19,7 +19,7 @@ one() {
   if ! (cd "$SCR/repo" && patch -p1 --quiet < "$p"); then echo "SELFTEST-ERROR cannot apply $p"; rm -rf "$SCR"; return; fi
   if ! (cd "$SCR/repo" && go build ./... ) >/dev/null 2>&1; then echo "SELFTEST-ERROR mutant does not compile: $p"; rm -rf "$SCR"; return; fi
   for q in $props; do
-    out=$("$HERE/bin/ruxvc" -repo "$SCR/repo" -verif "$SCR/v" -prop "$q" -noreplay -j 6 2>&1)
+    out=$("$HERE/bin/ruxvc" -repo "$SCR/repo" -verif "$SCR/v" -prop "$q" -noreplay -noretry -j 6 2>&1)
     if [ "$exp" = GREEN ]; then
       if echo "$out" | grep -q '^VIOLATION'; then echo "SELFTEST-FAIL (false alarm) $q $name: $(echo "$out" | grep '^VIOLATION' | head -2)"; else echo "ok   green     $q $name"; fi
     else
